@@ -238,7 +238,7 @@ def h_infer_super():
         def inv(it, fr):
             if any(n[0] == "early-exit" for n in ctx.notes):
                 return z3.BoolVal(False)
-            dom, fld = fr.locals.get("super_domain"), fr.locals.get("super_field")
+            dom, fld = it.loop_value(fr, 0, 0), it.loop_value(fr, 0, 1)
             adds = W.added()
             if not isinstance(dom, Obj) or not isinstance(fld, Obj):
                 return z3.BoolVal(not adds and not W.made)
@@ -412,7 +412,7 @@ def h_transitive():
             def inv(it, fr):
                 if any(n[0] == "early-exit" for n in ctx.notes):
                     return z3.BoolVal(False)
-                nxt = fr.locals.get("nxt_relation")
+                nxt = it.loop_value(fr, 0)
                 adds = W.added()
                 if not isinstance(nxt, Obj) or nxt.tag != f"{direction}-edge":
                     return z3.BoolVal(not adds)
